@@ -252,6 +252,15 @@ func (n *namer) outs(l []outLeaf) string {
 // ---------------------------------------------------------------- descriptions (JSON, for replays)
 
 func hx(d ID) string { return hex.EncodeToString(d[:]) }
+func hexID(s string) ID {
+	var d ID
+	b, err := hex.DecodeString(s)
+	if err != nil || len(b) != len(d) {
+		panic("bad ID constant " + s)
+	}
+	copy(d[:], b)
+	return d
+}
 func (l leaf) desc() map[string]interface{} {
 	return map[string]interface{}{"dev": hx(l.dev), "id": int(l.pid), "job": int(l.job), "body": [...]string{"empty", "hello", "badhello", "data", "key"}[l.body], "k": int(l.k)}
 }
@@ -336,6 +345,12 @@ type histStats struct {
 	dispatched    int
 }
 
+func addKeyed(m map[ID]map[byte]bool, d ID, k byte) {
+	if m[d] == nil {
+		m[d] = map[byte]bool{}
+	}
+	m[d][k] = true
+}
 func idIn(d ID, l []ID) bool {
 	for _, x := range l {
 		if x == d {
@@ -397,7 +412,7 @@ func runHistory(ids []ID, ops []*op, class string) {
 			leafs  []outLeaf // outbound packets handed to the connection
 			named  []ID      // devices the incoming packet(s) name
 			tags   []uint32
-			keyed  = map[ID]byte{} // device -> key tag carried by a packet naming it
+			keyed  = map[ID]map[byte]bool{} // device -> key tags carried by the packets naming it in this step
 			top    ID
 			isTalk bool
 			answer = "" // "register", "error", "reply", ...
@@ -417,13 +432,13 @@ func runHistory(ids []ID, ops []*op, class string) {
 				tags = o.p.tags
 				if o.p.kind == kSingle {
 					if o.p.top.body == bKey {
-						keyed[top] = o.p.top.k
+						addKeyed(keyed, top, o.p.top.k)
 					}
 				} else {
 					for _, s := range o.p.subs {
 						named = append(named, s.dev)
-						if s.body == bKey && o.p.kind == kMultiDev {
-							keyed[s.dev] = s.k
+						if s.body == bKey {
+							addKeyed(keyed, s.dev, s.k)
 						}
 					}
 				}
@@ -444,7 +459,7 @@ func runHistory(ids []ID, ops []*op, class string) {
 				top = o.n.dev
 				named = append(named, top)
 				if o.n.body == bKey {
-					keyed[top] = o.n.k
+					addKeyed(keyed, top, o.n.k)
 				}
 				kk, q, r, err := c2.VerifC15TalkSub(l, a, o.n.build(), o.o)
 				switch {
@@ -581,7 +596,7 @@ func runHistory(ids []ID, ops []*op, class string) {
 					fail("the session of device A was updated (remote address, last-seen) on behalf of a packet naming device B with the same 32-bit hash", key, caseDesc())
 				}
 				if had && (p.Pub0 != e.Pub0 || p.Pub1 != e.Pub1) {
-					if kt, ok := keyed[e.ID]; !ok || kt != e.Pub1 {
+					if e.Pub0 != 0xEE || !keyed[e.ID][e.Pub1] {
 						key := site + "-rekeyed-other-session"
 						switch blame(e.ID) {
 						case "top":
@@ -620,7 +635,7 @@ func runHistory(ids []ID, ops []*op, class string) {
 					if !reg {
 						key := site + "-hello-not-registered"
 						if coll {
-							key = "colliding-device-cannot-register"
+							key = "hash-collision-second-device-cannot-register"
 						}
 						fail("a well-formed hello of an unregistered device did not register it ("+answer+")", key, caseDesc())
 					}
@@ -829,7 +844,7 @@ func runProxy(ids []ID, ops []*pop, class string) {
 			if !top.Empty() && !prev[top] && o.n.pid != c2.SvHello && answer != "register" {
 				key := site + "-unknown-device-no-register-request"
 				if coll {
-					key = site + "-hash-collision"
+					key = site + "-hash-collision-no-register-request"
 				}
 				fail("the proxy did not answer a packet naming an unregistered device with a re-registration request ("+answer+")", key, caseDesc())
 			}
@@ -837,7 +852,7 @@ func runProxy(ids []ID, ops []*pop, class string) {
 				if lf.dev != top && !u32In(lf.dev.Hash(), o.tags) {
 					key := site + "-outbound-to-other-connection"
 					if coll {
-						key = site + "-hash-collision"
+						key = site + "-hash-collision-outbound"
 					}
 					fail("the proxy handed an outbound packet of client A to the connection of a packet naming device B", key, caseDesc())
 					break
@@ -853,9 +868,9 @@ func runProxy(ids []ID, ops []*pop, class string) {
 				if !reg {
 					key := site + "-hello-not-registered"
 					if coll {
-						key = site + "-hash-collision"
+						key = "proxy-hash-collision-second-device-cannot-register"
 					}
-					fail("the hello of an unregistered device did not register it at the proxy", key, caseDesc())
+					fail("the hello of an unregistered device did not register it at the proxy ("+answer+")", key, caseDesc())
 				}
 			}
 		}
@@ -1118,6 +1133,28 @@ func main() {
 	for _, d := range hs {
 		out.Add(fmt.Sprintf("CHash %s %d", vh.Bytes(d[:]), d.Hash()), "hash", true, map[string]interface{}{"fn": "ID.Hash", "id": hx(d)})
 	}
+
+	// ---- the pair that Proofs/Table.v hard-codes (idA, idB; found once by this search with seed 1) and
+	// the history demo_ops of Props/C15.v (C15_nonvacuous): the model's output stated there is
+	// compared with the real code here on every run
+	fa, fb, fc := hexID("22f28b361e1ec5a05005b2c70a9e5ed9be896d41e5b6f4a3d5a1e3f4d6b808c7"),
+		hexID("8f6872661ff816b4ec15cf9b6a691eb4da66194f7c31ba3b9c1c0099ebe7d28f"),
+		hexID("0102030405060708090a0b0c0d0e0f101112131415161718191a1b1c1d1e1f20")
+	for _, d := range []ID{fa, fb, fc} {
+		out.Add(fmt.Sprintf("CHash %s %d", vh.Bytes(d[:]), d.Hash()), "hash", true, map[string]interface{}{"fn": "ID.Hash", "id": hx(d), "note": "constant of Proofs/Table.v"})
+	}
+	if fa.Hash() != fb.Hash() || fa.Hash() != 827974963 {
+		fail("the IDs hard-coded in Proofs/Table.v no longer collide under ID.Hash", "proof-constant-no-collision", map[string]interface{}{"a": hx(fa), "b": hx(fb)})
+	}
+	lf := func(d ID, pid uint8, job uint16, body int, k byte) leaf { return leaf{dev: d, pid: pid, job: job, body: body, k: k} }
+	hl := func(d ID, job uint16) *op {
+		return &op{kind: oTalk, p: &pkt{kind: kSingle, top: lf(d, c2.SvHello, job, bHello, 0)}}
+	}
+	runHistory([]ID{fa, fb, fc}, []*op{hl(fa, 10), hl(fc, 11), {kind: oSend, d: fa, pid: 208, job: 12}, {kind: oSend, d: fb, pid: 209, job: 13},
+		{kind: oTalk, p: &pkt{kind: kMultiDev, dev: fc, job: 14, subs: []leaf{lf(fa, 192, 15, bData, 0), lf(fb, 192, 16, bKey, 9), lf(fc, 193, 17, bData, 0)}}},
+		{kind: oTalk, p: &pkt{kind: kSingle, top: lf(fb, 192, 18, bKey, 77)}}, hl(fb, 19), {kind: oLookup, d: fb}, {kind: oLookup, d: fa},
+		{kind: oTalk, p: &pkt{kind: kSingle, top: lf(fc, 0, 0, bEmpty, 0), tags: []uint32{fa.Hash()}}}, {kind: oRemove, d: fc},
+		{kind: oTalk, p: &pkt{kind: kSingle, top: lf(fc, 192, 20, bData, 0)}}}, "corpus")
 
 	// ---- corpus: one representative history per known finding / repaired defect
 	a, b := pairs[0][0], pairs[0][1]
